@@ -469,6 +469,55 @@ func exec(op string) (res string) {
 		return vh.Hex(resp)
 	case "hs":
 		return handshake(w[1], w[2:])
+	// ---- property oracles
+	case "verify":
+		o := &gocql.SslOptions{EnableHostVerification: w[2] == "true"}
+		if w[1] != "nil" {
+			o.Config = &tls.Config{InsecureSkipVerify: w[1] == "true"}
+		}
+		c, err := gocql.VerifSetupTLSConfig(o)
+		if err != nil {
+			return "err"
+		}
+		if c.InsecureSkipVerify {
+			return "noverify"
+		}
+		return "verify"
+	case "badfile":
+		p := thePKI
+		_, err := gocql.VerifSetupTLSConfig(&gocql.SslOptions{EnableHostVerification: true,
+			CaPath: p.path("ca", w[1]), CertPath: p.path("cert", w[2]), KeyPath: p.path("key", w[3])})
+		if err != nil {
+			return "error"
+		}
+		return "config"
+	case "hsnoauth":
+		a := handshake("none", w[1:])
+		res := "refused"
+		if strings.HasSuffix(a, "outcome=ready") {
+			res = "ready"
+		}
+		cs := "0"
+		if strings.Contains(a, "authresp") {
+			cs = "1"
+		}
+		return res + " credentials-sent=" + cs
+	case "disclose":
+		a := handshake(w[1], []string{"sup", "auth:" + w[2], "succ"})
+		i := strings.Index(a, "authresp:")
+		if i < 0 {
+			return "none"
+		}
+		t := a[i+len("authresp:"):]
+		return "token:" + t[:strings.IndexAny(t, ", ")]
+	case "snihost":
+		port, err := strconv.Atoi(string(mustHex(w[2])))
+		if err != nil {
+			return "bad-op"
+		}
+		addr := gocql.VerifHostnameAndPort(string(mustHex(w[1])), net.IPv4(10, 0, 0, 1), port)
+		c := gocql.VerifTLSConfigForAddr(&tls.Config{}, addr)
+		return vh.Hex([]byte(c.ServerName))
 	case "doc":
 		t := docTable(w[1])
 		if r, ok := t[w[2]+" "+w[3]]; ok {
@@ -609,6 +658,46 @@ func main() {
 				op := "doc " + f + " " + c + " " + e
 				out.Case(op, exec(op), "doc/"+f, true)
 			}
+		}
+	}
+	// property oracles (first in the stream: the check driver keeps the first 50 disagreements)
+	for _, c := range []string{"nil", "false", "true"} {
+		for _, e := range []string{"false", "true"} {
+			op := "verify " + c + " " + e
+			out.Case(op, exec(op), "oracle/verify", true)
+		}
+	}
+	for _, ca := range fileStates["ca"] {
+		for _, cert := range fileStates["cert"] {
+			for _, key := range fileStates["key"] {
+				op := "badfile " + ca + " " + cert + " " + key
+				a := exec(op)
+				out.Case(op, a, "oracle/badfile/"+a, true)
+			}
+		}
+	}
+	for i := 0; i < 150*mult; i++ {
+		cls := genClass(r)
+		tail := [][]string{{}, {"succ"}, {"rdy"}, {"err"}, {"other"}, {"succ", "rdy"}, {"chal"}}[r.Intn(7)]
+		script := append([]string{"sup", "auth:" + vh.Hex([]byte(cls))}, tail...)
+		if r.Intn(6) == 0 {
+			script = [][]string{{"sup", "rdy"}, {"sup"}, {"rdy"}, {"sup", "succ"}, {"sup", "other"}, {"succ"}}[r.Intn(6)]
+		}
+		op := "hsnoauth " + strings.Join(script, " ")
+		a := exec(op)
+		out.Case(op, a, "oracle/hsnoauth/"+strings.Fields(a)[0], true)
+		al := genAllowed(r, cls)
+		op = "disclose pw:" + vh.Hex(genCred(r)) + ":" + vh.Hex(genCred(r)) + ":" + al + " " + vh.Hex([]byte(cls))
+		a = exec(op)
+		c := "token"
+		if a == "none" {
+			c = "none"
+		}
+		out.Case(op, a, "oracle/disclose/"+c, true)
+		host, hc := genHost(r)
+		if host != "" {
+			op = "snihost " + vh.Hex([]byte(host)) + " " + vh.Hex([]byte(fmt.Sprint(1+r.Intn(65535))))
+			out.Case(op, exec(op), "oracle/snihost/"+hc, true)
 		}
 	}
 	// setupTLSConfig: the whole finite domain of (config, EnableHostVerification) x file states
